@@ -1,15 +1,41 @@
 import H4.Slab
+import H4.Gen.Fn.Putget
 import H4.Driver.Util
 namespace H4.Driver
 open H4.Slab
 
-/-- engine `sd`: `offs <shape> <start> <stride> <count>` => element offset of the k-th value, k = 0.. -/
+/-! `NCvcmaxcontig` TRANSLATED from the current C text of putget.c (`H4.Gen.Fn.Putget`, gen/c2lean.py) is run on the same arguments as
+    the hand-written model `Slab.maxContig`: when the two differ (or the translated code reports undefined behaviour / fuel exhaustion)
+    the answer carries a ` GEN=…` suffix, which the comparison with the real library's answer reports as a DIFF.  This validates the
+    translator itself by differential testing against the compiled C. -/
+namespace GenSlab
+open H4.Gen.Fn.Putget
+def il (l : List Nat) : List Int := l.map Int.ofNat
+def tag (model : String) (ub oof : Bool) (gen : String) : String :=
+  if ub then s!"{model} GEN=ub" else if oof then s!"{model} GEN=oof" else if gen == model then model else s!"{model} GEN={gen}"
+def showAnswer : Option Nat → String
+  | none => "null"
+  | some k => toString k
+def maxcontig (shape origin edges : List Nat) (recsize len : Nat) (model : String) : String :=
+  let n := shape.length
+  let s := NCvcmaxcontig (n + 1) recsize false (il shape) n len (il origin) (il edges)
+  tag model s.ub s.oof (if !s.done then "noreturn" else if s.retnull then "null" else toString s.ret)
+end GenSlab
+
+/-- engine `sd`: `offs <shape> <start> <stride> <count>` => element offset of the k-th value, k = 0..;
+    `maxcontig <shape> <origin> <edges> <recsize> <len>` => index into `edges` returned by `NCvcmaxcontig`, or `null` -/
 def stepSd (args : List String) : String :=
   match args with
   | ["offs", sh, st, sd, ct] =>
     match natList sh, natList st, natList sd, natList ct with
     | some shape, some start, some stride, some count => showNatList (slabOffsets shape start stride count)
     | _, _, _, _ => "bad-op"
+  | ["maxcontig", sh, org, ed, rs, ln] =>
+    match natList sh, natList org, natList ed, rs.toNat?, ln.toNat? with
+    | some shape, some origin, some edges, some recsize, some len =>
+      if shape.isEmpty || origin.length != shape.length || edges.length != shape.length then "bad-op" else
+      GenSlab.maxcontig shape origin edges recsize len (GenSlab.showAnswer (maxContig recsize len shape origin edges))
+    | _, _, _, _, _ => "bad-op"
   | _ => "bad-op"
 
 end H4.Driver
